@@ -1,5 +1,5 @@
 """C02 - every NPU access stays inside the region the output model declares."""
-from .. import netrun
+from .. import forced, netrun
 from ..npu import decode as D
 from ..npu import footprint as F
 from ..npu import isa
@@ -75,4 +75,4 @@ def run(ctx):
              "(tiles, strides, NHCWB16 bricks, per-core weight/scale ranges, LUT slot, DMA) of every operation is compared with the published region extents",
         assumptions=["IFM extent fetched by an operation is derived from OFM extent, kernel, stride, padding and upscale registers (DESIGN.md A1/A2)",
                      "effective arena cache size = --arena-cache-size if given else 393216 (CLI default)"],
-        nontrivial_stat="strided", key_fn=_key)
+        extra_cases=forced.forced_cases(ctx.tier), nontrivial_stat="strided", key_fn=_key)
